@@ -42,6 +42,14 @@ def unseeded_cells(quick):
     for i in idxs:
       for variant in (0, 1, 2):
         cells.append({'family': 'unseeded', 'psize': psize, 'index': i, 'variant': variant})
+  # ground truth that does not come from the shipped table: the first ten outputs of GMP's Mersenne Twister in its default state
+  # (gmpy2.random_state()), which the table lists for every size
+  for psize in sorted(unseeded_rands.size_unseeded_map):
+    if quick and psize > 1536:
+      continue
+    for i in range(10):
+      for variant in ((0, 1) if quick else (0, 1, 2)):
+        cells.append({'family': 'unseeded', 'psize': psize, 'index': i, 'variant': variant, 'source': 'gmpmt'})
   return cells
 
 
@@ -61,9 +69,14 @@ def build(cell, inst):
       return None
     return weak.highlow_key(rng, aid, cell['bits'], cell['r'], cell['s'])
   if f == 'upperdiff':
-    return weak.upperdiff_key(rng, aid, cell['L'], cell['dindex'])
+    return weak.upperdiff_key(rng, aid, cell['L'], cell['dindex'], cell.get('odd', 0))
   if f == 'unseeded':
     from paranoid_crypto.lib.data import unseeded_rands
+    if cell.get('source') == 'gmpmt':
+      import gmpy2
+      rs = gmpy2.random_state()
+      out = [int(gmpy2.mpz_urandomb(rs, cell['psize'])) for _ in range(cell['index'] + 1)]
+      return weak.unseeded_key(rng, aid, cell['psize'], out[-1], cell['variant'])
     vals = sorted(unseeded_rands.size_unseeded_map[cell['psize']])
     return weak.unseeded_key(rng, aid, cell['psize'], vals[cell['index']], cell['variant'])
   if f == 'pattern':
